@@ -181,3 +181,5 @@ func main() {
 		panic(err)
 	}
 }
+
+func newRng(seed int64) *rand.Rand { return rand.New(rand.NewSource(seed)) }
